@@ -673,6 +673,9 @@ class MultiFit(FitBase):
             _gof_sum += self._shared_cost_function.goodness_of_fit(
                 *[self._nexus.get(_node_name).value for _node_name in self._shared_cost_function.arg_names]
             )
+        # the constraints of the multi-fit itself are part of its cost function
+        for _parameter_constraint in self._fit_param_constraints:
+            _gof_sum += _parameter_constraint.cost(self.parameter_values)
         return _gof_sum
 
     @property
